@@ -247,7 +247,7 @@ func init() {
 	register("c07", func(args []string) int {
 		f := parseFlags("c07", args)
 		rep := newReport("C07", f)
-		rep.Rule = "twin executions H;T;K vs H;K on two disks, T = one write transaction ending in Rollback / Close / a Commit that fails (sync #1, sync #2 or a page write fails): T's body allocates from free list and file end, frees old and fresh pages, overwrites (meta growth), flushes; compared: exact allocator state + mapping + root before/after T, every result of K (ids, error kinds), all reads, final state, state after reopen; K1: allocator scripts ending in rollback vs. the Coq model (full state after every op). Non-trivial: distinct (config, abort kind, op statistics)."
+		rep.Rule = "twin executions H;T;K vs H;K on two disks, T = one write transaction ending in Rollback / Close / a Commit that fails (sync #1, sync #2 or a page write fails): T's body allocates from free list and file end, frees old and fresh pages, overwrites (meta growth), flushes; compared: exact allocator state + mapping + root before/after T, every result of K (ids, error kinds), all reads, final state, state after reopen; directed: aborted transactions on a full bounded file with a live overflow area; K1: allocator scripts ending in rollback or in a commit that fails after its allocation step vs. the Coq model (full state after every op). Non-trivial: distinct (config, abort kind, op statistics)."
 		m, err := model.Start()
 		if err != nil {
 			fmt.Fprintln(os.Stderr, err)
@@ -288,6 +288,30 @@ func init() {
 			if i < 2 {
 				rep.sample(map[string]interface{}{"config": cfg.String(), "abort": kind, "prefix": opKinds(H), "aborted_tx": opKinds(T), "continuation": opKinds(K)})
 			}
+		}
+		// directed: a full bounded file whose overwrite / mapping / free-list pages live in an overflow area behind the
+		// size limit; every kind of aborted transaction (also one with the overflow area enabled that grows it)
+		for i := 0; i < 24; i++ {
+			hseed := r.Int63()
+			hr := rand.New(rand.NewSource(hseed))
+			cfg := engine.Config{PageSize: 1024, MaxSize: uint64(64+hr.Intn(32)) * 1024, InitMetaArea: uint32(hr.Intn(2) * 2)}
+			H := fillAllOps(hr)
+			H = append(H, engine.Op{Kind: "begin", Overflow: true, WALLimit: 1000})
+			for k := 2 + hr.Intn(6); k > 0; k-- {
+				H = append(H, engine.Op{Kind: "setfull", P: hr.Intn(1 << 16), Seed: 1 + hr.Intn(1000)})
+			}
+			H = append(H, engine.Op{Kind: "commit"}, engine.Op{Kind: "verify"})
+			prof := gen.DefaultProfile()
+			prof.Readers = false
+			prof.Reopen = false
+			prof.MaxTx = 3
+			T, kind := abortedTx(hr, prof)
+			if i%2 == 0 {
+				T[0].Overflow = true
+			}
+			K := []engine.Op{{Kind: "verify"}, {Kind: "begin", Overflow: true, WALLimit: 1000}, {Kind: "setfull", P: hr.Intn(1 << 16), Seed: 77}, {Kind: "free", P: hr.Intn(1 << 16)}, {Kind: "commit"}, {Kind: "verify"}}
+			rep.count("scenario:abort-on-a-full-file-with-an-overflow-area/"+kind, 1)
+			twinCase(rep, cfg, H, T, K, hseed, "abort-overflow/"+kind, true)
 		}
 		rep.ModelCalls = m.N
 		return rep.finish(f)
